@@ -230,6 +230,7 @@ def classify(tu, fn, body, enums, sizes):
     info["body_sha"] = hashlib.sha256(repr(b).encode()).hexdigest()[:16]
     info["memset_scales"] = memset_scales(b, params, sizes)
     info["writes_through"] = writes_through(b, params)
+    info["_body"], info["_params"] = b, params
     return info
 
 
@@ -304,7 +305,7 @@ def typed_sites(fname, node):
     return out
 
 
-def writes_through(node, params):
+def writes_through(node, params, summaries=None):
     """Pointer parameters through which the function body (syntactically) stores: an
     assignment whose target dereferences an expression derived from the parameter, a
     memcpy/memset/str*cpy whose destination is, or a call of a `*Set*`/`*Init*`/`*Pad*`
@@ -379,6 +380,11 @@ def writes_through(node, params):
                 fn = n[1]
                 if fn in ("memcpy", "memset", "memmove", "strcpy", "strncpy") and n[2]:
                     written.update(roots(n[2][0]))
+                elif summaries and fn in summaries:
+                    # a function of the same file: the parameters IT stores through
+                    for idx in summaries[fn]:
+                        if idx < len(n[2]):
+                            written.update(roots(n[2][idx]))
                 elif any(k in fn for k in ("Set", "Init", "Pad", "Finalize", "Create", "Serialize")) and "Get" not in fn:
                     for a in n[2][:1]:
                         written.update(roots(a))
@@ -695,6 +701,20 @@ def extract_file(path):
         out["functions"].append(info)
         out.setdefault("typed_sites", []).extend(typed_sites(n["name"], tu.stmt(body)))
         collect_local_statics(n, body, out["statics"])
+    # stores through pointer parameters, propagated through calls of functions of the same file
+    # (e.g. a byte-order helper that memcpy's into its argument) until nothing changes
+    algo = [fn for fn in out["functions"] if "_body" in fn]
+    changed = True
+    while changed:
+        changed = False
+        summaries = {fn["name"]: [i for i, (pn, _) in enumerate(fn["params"]) if pn in fn["writes_through"]] for fn in algo}
+        for fn in algo:
+            w = writes_through(fn["_body"], fn["_params"], summaries)
+            if w != fn["writes_through"]:
+                fn["writes_through"] = w
+                changed = True
+    for fn in algo:
+        del fn["_body"], fn["_params"]
     # the field enum: parameter type of the generic getter
     for fn in out["functions"]:
         if fn.get("kind") == "getter" and fn["field"]["kind"] == "param":
